@@ -167,10 +167,16 @@ def norm(v):
     if isinstance(v, bool):
         return ("b", v)
     if isinstance(v, float):
-        return ("f", repr(v))  # 40.0 is not 40, -0.0 is not 0.0: type and sign are part of it
+        # 40.0 is not 40, -0.0 is not 0.0: type and sign are part of it - the VALUE is what
+        # counts, not how an instance of a subclass chooses to print itself
+        return ("f", float.__repr__(float.__float__(v)))
     if isinstance(v, bytes):
-        return ("y", v.decode("latin-1"))
-    if isinstance(v, (int, str)) or v is None:
+        return ("y", bytes.__getitem__(v, slice(None)).decode("latin-1"))
+    if isinstance(v, int):
+        return int.__index__(v)
+    if isinstance(v, str):
+        return str.__str__(v)
+    if v is None:
         return v
     return ("obj", type(v).__name__)
 
